@@ -532,9 +532,33 @@ fn gen_sim_on(rng: &mut Rng, o: &mut Out, vb: Vec<u8>, kind: String) {
     let external = ExternalAsRegistry::new();
     let sim = LocalNetworkSimulation::new(local_as, 1, &receivers, &external, &router);
     // the action: an explicit SCMP error, or local forwarding with no receiver registered
-    let (action, f): (LocalAsRoutingAction, [u64; 5]) = if rng.chance(2, 3) {
+    let (action, f): (LocalAsRoutingAction, [u64; 5]) = if rng.chance(1, 3) {
         let (m, f) = rnd_emsg(rng, vb.clone());
         (LocalAsRoutingAction::SendSCMPErrorResponse(m.try_into_error_message().expect("error message")), f)
+    } else if rng.chance(1, 2) {
+        // the router's own routing errors: StandardRoutingError::to_scmp_error quotes the whole packet
+        use pocketscion::network::scion::routing::spec::standard::StandardRoutingError as E;
+        let cd = rng.chance(1, 2);
+        let e = match rng.below(11) {
+            0 => E::NonLocalDelivery,
+            1 => E::UnknownIngressInterface { hop_index: 0, if_id: 7, cons_dir: cd },
+            2 => E::InvalidIngressInterface { hop_index: 1, expected: 1, found: 2, cons_dir: cd },
+            3 => E::UnknownEgressInterface { hop_index: 0, if_id: 9, cons_dir: cd },
+            4 => E::InvalidEgressInterface { hop_index: 2, expected: 3, found: 4, cons_dir: cd },
+            5 => E::FutureTimestamp { hop_index: 0 },
+            6 => E::SegmentExpired { hop_index: 0 },
+            7 => E::InvalidMacError { hop_index: 0, expected: [1; 6], actual: [2; 6] },
+            8 => E::InvalidSegmentChange { hop_index: 1 },
+            9 => E::EgressInterfaceDown { hop_index: 0, if_id: rng.below(65536) as u16 },
+            _ => E::InvalidScmpAlert { hop_index: 0, cons_dir: cd },
+        };
+        let Some(m) = e.to_scmp_error(local_as, &boxed) else { o.sm.count("sim.skipped-no-scmp-error"); return; };
+        let (f, off) = emsg_fields(&m);
+        if off != vb { o.sm.count("sim.routing-error-quote-differs"); }
+        o.sm.count("sim.routing-error");
+        // the expected quote is the packet itself: CSim models e_off = packet
+        if off != vb { return gen_sim_quote_mismatch(o, &vb, &off); }
+        (LocalAsRoutingAction::SendSCMPErrorResponse(m), f)
     } else {
         // dispatch(): invalid destination address -> ParameterProblem(InvalidAddressHeader, 0);
         // other AS -> ParameterProblem(NonLocalDelivery, 0); SVC destination -> service reply (UDP,
@@ -602,6 +626,13 @@ fn gen_sim_echo(rng: &mut Rng, o: &mut Out) {
     o.sm.count(&format!("simecho.oc{oc}"));
     o.push("simecho", format!("CSimEcho {} {} {} {rnib} {} {ifid} {oc} {}", coq_rle(&vb), coq_dppath(&path), IA_A, coq_bytes(&rraw), coq_rle(&out)),
            format!("pocketscion handle_scmp on {kind} {}B -> oc={oc} reply={}B", vb.len(), out.len()), true);
+}
+
+/// a routing error that does not quote the whole offending packet: reported as a failing case
+fn gen_sim_quote_mismatch(o: &mut Out, vb: &[u8], off: &[u8]) {
+    // CEnc with an impossible outcome makes the verdict non-zero (bit 1): model and implementation disagree
+    o.push("sim", format!("CEnc 0 1 0 0 0 0 {} 4 4 0 0 {}", coq_rle(vb), coq_rle(off)),
+           "StandardRoutingError::to_scmp_error does not quote the offending packet".into(), true);
 }
 
 fn emsg_fields(m: &ScmpErrorMessage) -> ([u64; 5], Vec<u8>) {
